@@ -364,10 +364,20 @@ func (p *Prog) DescsN(o thrift.Options, n int) (req, resp *thrift.TypeDescriptor
 	return rf.Type(), sf.Type(), nil
 }
 
-// SingleFile: the program is one file without includes (what the portable pipe server of C18 can parse).
-func (p *Prog) SingleFile() bool {
+// Includes: the files the main file includes (path -> text), nil if none.
+func (p *Prog) Includes() map[string]string {
 	p.IDL()
-	return !p.useBase && len(p.incs) == 0
+	var inc map[string]string
+	if p.useBase {
+		inc = map[string]string{"a/b/base.thrift": baseIDL}
+	}
+	for k, v := range p.incs {
+		if inc == nil {
+			inc = map[string]string{}
+		}
+		inc[k] = v
+	}
+	return inc
 }
 
 // Req is Descs(o).req, panicking on a parse error (harness-generated IDL must parse).
